@@ -209,6 +209,10 @@ fn check_spectrum(label: &str, x: &RefArray) -> (u64, Vec<Viol>) {
 // ---- L2 --------------------------------------------------------------------------------------
 
 fn cli_stats(x: &RefArray, stats: &[&str], fold_first: bool, scratch: &Scratch) -> Result<Vec<f64>, String> {
+    cli_stats_with(x, stats, fold_first, &[], scratch)
+}
+
+fn cli_stats_with(x: &RefArray, stats: &[&str], fold_first: bool, extra: &[&str], scratch: &Scratch) -> Result<Vec<f64>, String> {
     let mut input = text_of(x).into_bytes();
     if fold_first {
         let f = run_sfs(&["fold", "--fill", "zero", "--precision", "17"], Stdin::Bytes(&input), scratch);
@@ -218,7 +222,9 @@ fn cli_stats(x: &RefArray, stats: &[&str], fold_first: bool, scratch: &Scratch) 
         input = f.stdout;
     }
     let list = stats.join(",");
-    let o = run_sfs(&["stat", "-s", &list, "--precision", "12"], Stdin::Bytes(&input), scratch);
+    let mut args: Vec<&str> = vec!["stat", "-s", &list, "--precision", "12"];
+    args.extend_from_slice(extra);
+    let o = run_sfs(&args, Stdin::Bytes(&input), scratch);
     if !o.ok() {
         return Err(format!("{} {}", o.status_str(), o.stderr_str().trim()));
     }
@@ -253,6 +259,18 @@ fn eval_cli(x: &RefArray, scratch: &Scratch) -> (u64, Vec<Viol>) {
                 format!("C14|cli|value-depends-on-list|{st}"),
                 format!("shape {shape:?}: {st} is {v} in `-s {}` but {other:?} when requested alone", all.join(",")),
                 case_j("list-independence", st, x, ""),
+            )),
+        }
+    }
+    // verbosity flags must not change the row
+    for f in ["-q", "-qq", "-v", "-vv"] {
+        n += 1;
+        match cli_stats_with(x, &all, false, &[f], scratch) {
+            Ok(a) if a.len() == base.len() && a.iter().zip(&base).all(|(u, v)| u.to_bits() == v.to_bits() || (u.is_nan() && v.is_nan())) => {}
+            other => viols.push((
+                format!("C14|cli|verbosity-changes-output|{f}"),
+                format!("shape {shape:?}: `sfs stat -s {} {f}` = {other:?}, without the flag {base:?}", all.join(",")),
+                case_j("verbosity", f, x, ""),
             )),
         }
     }
